@@ -17,7 +17,7 @@ theorem loop_inv {I : Cell → Prop}
     {revq : List Nat} {qs : List (Nat × Bool)} {c c' : Cell} (h : Loop revq qs c c') (h0 : I c) : I c' := by
   induction h with
   | nil => exact h0
-  | @cons e es ca cb cc a0 ha0 hchain _ ih2 =>
+  | @cons e es ca cb cc a0 ha0 hchain _ _ ih2 =>
     apply ih2
     exact lreach_inv (I := I) (fun ci ci' lab hs hi hp lp => hstep ca e a0 _ ci ci' lab ha0 h0 hs hi hp lp)
       hchain h0
